@@ -59,7 +59,7 @@ INDEX_CALLEES = {
 def in_scope(b):
     if b.j.get("const_fn"):
         return False
-    return b.crate == "pasfmt_core.lib" or b.file == "orchestrator/src/file_formatter.rs"
+    return b.crate in ("pasfmt_core.lib", "pasfmt_canary.lib") or b.file == "orchestrator/src/file_formatter.rs"
 
 
 def short(n):
